@@ -80,7 +80,10 @@ Fixpoint load_loop (ls : list bytes) (strings : list str) (lines : list str) : l
 Definition load_bytes (f : bytes) : list str := rev (load_loop (lines_of f) [] []).
 
 (* ---- instances sharing one file ---------------------------------------- *)
-Record inst := mkinst { i_loaded : bool; i_strings : list str }.
+(* the state of one `load()` async generator of the instance: not created,
+   created but not started, the list iterator's index, exhausted *)
+Inductive iter_st := ItNone | ItFresh | ItAt (n : nat) | ItDone.
+Record inst := mkinst { i_loaded : bool; i_strings : list str; i_it : iter_st }.
 Record fstate := mkfs { f_file : bytes; f_insts : list inst }.
 
 Inductive fop :=
@@ -89,7 +92,9 @@ Inductive fop :=
 | OTrunc (n : Z)                              (* crash: the file is cut to its first n bytes *)
 | OLoad (i : nat)                             (* [x async for x in insts[i].load()] *)
 | OGet (i : nat)                              (* insts[i].get_strings() *)
-| ORaw (b : bytes).                           (* foreign bytes appended to the file *)
+| ORaw (b : bytes)                            (* foreign bytes appended to the file *)
+| OIter (i : nat)                             (* g_i = insts[i].load()   (nothing runs yet) *)
+| ONext (i : nat).                            (* await g_i.__anext__()   (one item, or the end) *)
 
 Fixpoint upd {T} (l : list T) (i : nat) (x : T) : list T :=
   match l, i with
@@ -98,7 +103,7 @@ Fixpoint upd {T} (l : list T) (i : nat) (x : T) : list T :=
   | y :: r, S k => y :: upd r k x
   end.
 
-Definition fresh_inst := mkinst false [].
+Definition fresh_inst := mkinst false [] ItNone.
 
 Definition sx_strs (l : list str) : sx := L (map sx_str l).
 
@@ -106,7 +111,7 @@ Definition fstep (st : fstate) (o : fop) : fstate * sx :=
   match o with
   | OAppend i ts s =>
       let it := nth i (f_insts st) fresh_inst in
-      let it' := mkinst (i_loaded it) (s :: i_strings it) in
+      let it' := mkinst (i_loaded it) (s :: i_strings it) (i_it it) in
       let '(b, ok) := store_exec ts s in
       let f' := f_file st ++ b in
       (mkfs f' (upd (f_insts st) i it'), L [A (if ok then 0 else 1); sx_str f'])
@@ -116,16 +121,36 @@ Definition fstep (st : fstate) (o : fop) : fstate * sx :=
       (mkfs f' (f_insts st), A (len f'))
   | OLoad i =>
       let it := nth i (f_insts st) fresh_inst in
-      let it' := if i_loaded it then it else mkinst true (load_bytes (f_file st)) in
+      let it' := if i_loaded it then it else mkinst true (load_bytes (f_file st)) (i_it it) in
       (mkfs (f_file st) (upd (f_insts st) i it'), sx_strs (i_strings it'))
   | OGet i =>
       (* get_strings() calls _ensure_loaded() first (commit f4f2a3a) *)
       let it := nth i (f_insts st) fresh_inst in
-      let it' := if i_loaded it then it else mkinst true (load_bytes (f_file st)) in
+      let it' := if i_loaded it then it else mkinst true (load_bytes (f_file st)) (i_it it) in
       (mkfs (f_file st) (upd (f_insts st) i it'), sx_strs (rev (i_strings it')))
   | ORaw b =>
       let f' := f_file st ++ b in
       (mkfs f' (f_insts st), A (len f'))
+  | OIter i =>
+      let it := nth i (f_insts st) fresh_inst in
+      (mkfs (f_file st) (upd (f_insts st) i (mkinst (i_loaded it) (i_strings it) ItFresh)), A 0)
+  | ONext i =>
+      let it := nth i (f_insts st) fresh_inst in
+      (* the first __anext__ runs _ensure_loaded() and creates the list iterator *)
+      let it1 := match i_it it with
+                 | ItFresh => if i_loaded it then mkinst true (i_strings it) (ItAt 0)
+                              else mkinst true (load_bytes (f_file st)) (ItAt 0)
+                 | _ => it
+                 end in
+      match i_it it1 with
+      | ItAt n =>
+          match nth_error (i_strings it1) n with
+          | Some x => (mkfs (f_file st) (upd (f_insts st) i (mkinst (i_loaded it1) (i_strings it1) (ItAt (S n)))),
+                       L [sx_str x])
+          | None => (mkfs (f_file st) (upd (f_insts st) i (mkinst (i_loaded it1) (i_strings it1) ItDone)), L [])
+          end
+      | _ => (mkfs (f_file st) (upd (f_insts st) i it1), L [])
+      end
   end.
 
 Fixpoint frun (st : fstate) (ops : list fop) : list sx :=
@@ -155,6 +180,8 @@ Definition dec_fop (s : sx) : option fop :=
   | L [A 4; A i] => if (0 <=? i) && (i <? 3) then Some (OLoad (Z.to_nat i)) else None
   | L [A 5; A i] => if (0 <=? i) && (i <? 3) then Some (OGet (Z.to_nat i)) else None
   | L [A 6; b] => match as_str b with Some b' => Some (ORaw b') | None => None end
+  | L [A 7; A i] => if (0 <=? i) && (i <? 3) then Some (OIter (Z.to_nat i)) else None
+  | L [A 8; A i] => if (0 <=? i) && (i <? 3) then Some (ONext (Z.to_nat i)) else None
   | _ => None
   end.
 
